@@ -28,7 +28,7 @@ class IPV4(String):
     A string field of a valid IP version 4
     """
 
-    _ipv4_re = re.compile(r"^\d{1,3}\.\d{1,3}\.\d{1,3}\.\d{1,3}$")
+    _ipv4_re = re.compile(r"^[0-9]{1,3}\.[0-9]{1,3}\.[0-9]{1,3}\.[0-9]{1,3}\Z")
 
     def __set__(self, instance, value):
         if IPV4._ipv4_re.match(value) and all(
@@ -53,7 +53,8 @@ class HostName(String):
     A string field of a valid host name
     """
 
-    _host_name_re = re.compile(r"^[A-Za-z0-9][A-Za-z0-9\.\-]{1,255}$")
+    _label = r"[A-Za-z0-9](?:[A-Za-z0-9\-]{0,61}[A-Za-z0-9])?"
+    _host_name_re = re.compile(rf"^(?=.{{2,253}}\Z){_label}(?:\.{_label})*\Z")
 
     def __set__(self, instance, value):
         if not HostName._host_name_re.match(value):
